@@ -403,11 +403,9 @@ def scenario_lines(cfg: Dict) -> List[str]:
             lines.append(f"folder {tok(fd['folder_name'])}")
             for f in fd.get("files") or []:
                 lines.append(f"file {tok(fd['folder_name'])} {tok(built_file_name(f))} {_o(f.get('size') or None)} {_o(None if 'type' not in f else f['type'].upper())}")
-    for ns in net.get("node_sets") or []:
-        if ns.get("type") != "office-lan":
-            raise Unmodelled(f"node set {ns.get('type')}")
-        lines.append(f"nodeset {tok(ns['lan_name'])} {ns['subnet_base']} {ns['pcs_ip_block_start']} {ns['num_pcs']} "
-                     f"{_o(None if 'include_router' not in ns else (1 if ns['include_router'] else 0))} {_o(ns.get('bandwidth'))}")
+    if net.get("node_sets"):
+        # the office-lan adder has its own Lean model (officeBuild) and its own rig family; it is not part of `build`
+        raise Unmodelled("node sets inside a scenario")
     for l in net.get("links") or []:
         lines.append(f"link {tok(l['endpoint_a_hostname'])} {l['endpoint_a_port']} {tok(l['endpoint_b_hostname'])} {l['endpoint_b_port']} "
                      f"{_o(l.get('bandwidth'))}")
